@@ -99,6 +99,8 @@ def run(ck, pid, n_quick, n_thorough, profiles, want=("stream",)):
     lines, owners = [], []
     for o in outs:
         ck.count("status_" + str(o.get("status", "harness-exception")))
+        if str(o.get("profile", "")).startswith("sweep:"):
+            ck.count("sweep_" + o["profile"].split(":", 1)[1])
         if "harness_exception" in o:
             raise common.InfraError("pipeline worker failed:\n" + o["harness_exception"])
         if o.get("harness_errors"):
